@@ -45,12 +45,12 @@ GenSpec == Init /\ [][GenNext]_allvars
 (* Invariants are evaluated on every candidate successor during simulation; one plan per   *)
 (* behaviour is wanted, so the first candidate seen at level Depth of each behaviour emits  *)
 (* the path leading to it (without the candidate itself, whose choice is not random).       *)
-ASSUME TLCSet(2, 0) /\ TLCSet(3, -1)
+ASSUME TLCSet(2, 0) /\ TLCSet(3, 1)
 Emit ==
-  \/ TLCGet("level") < Depth
-  \/ TLCGet(3) = TLCGet("stats").traces
-  \/ /\ TLCSet(3, TLCGet("stats").traces)
-     /\ TLCSet(2, TLCGet(2) + 1)
-     /\ ndJsonSerialize(IOEnv.VERIF_PLANDIR \o "/p" \o ToString(TLCGet(2)) \o ".ndjson",
-                        [i \in 1..(Len(Trace) - 1) |-> Trace[i].last])
+  IF TLCGet("level") < Depth THEN TLCSet(3, 1)            \* (re-)arm while the behaviour grows
+  ELSE \/ TLCGet(3) = 0                                   \* this behaviour has been written
+       \/ /\ TLCSet(3, 0)
+          /\ TLCSet(2, TLCGet(2) + 1)
+          /\ ndJsonSerialize(IOEnv.VERIF_PLANDIR \o "/p" \o ToString(TLCGet(2)) \o ".ndjson",
+                             [i \in 1..(Len(Trace) - 1) |-> Trace[i].last])
 =============================================================================
